@@ -251,6 +251,12 @@ def c09(chk):
     l1_stage(chk, "gc_open_reader_ext", dict(Keys=K1, MaxTx=1, MaxSteps=5 if quick else 6, Levels={"RR"}, Ops={"set", "del", "begin", "rollback", "gc", "reader"}),
              keep=held, sample=600 if quick else 6000, mode="external")
     l0_traces(chk, "gc_traces", 16 if quick else 240, 600, 3, 5, "set,del,begin,commit,rollback,gc")
+    # the database's own collector running all the time in the background ("at any moment, any number of times"): period 0
+    # (continuously), 1 ms, 5 ms. Without snapshot transactions: a snapshot Begin racing with the background collector is the
+    # recorded finding begin-unregistered-during-gc, which a trace has no schedule to recognise it by
+    specs = [dict(seed=vlib.seed() * 3571 + i, steps=400, keys=3, maxtx=3, ops="set,del,begin,commit,rollback,gc", levels="RU,RC", mode="inline",
+                  gcperiod=["0s", "1ms", "5ms"][i % 3]) for i in range(6 if quick else 60)]
+    trace_stage(chk, "gc_in_background", "L0Trace.tla", dict(Keys=keyset(3), AllowedDev=set(allowed_dev())), specs)
 
 
 def c13(chk):
